@@ -69,9 +69,11 @@ func timeline(d Doc, ms []InstModel, spans []noteSpan) (starts []int64, totals m
 			zeroAllowed = true
 		}
 	}
+	zeroAt := map[int64]int{}
 	var audible []noteSpan
 	for _, s := range spans {
 		if s.On == s.Off {
+			zeroAt[s.On]++
 			if !zeroAllowed {
 				return nil, nil, vio("length", "pitch %d is struck and released at the same tick %d, but every chord of the document lasts at least one tick", s.Pitch, s.On)
 			}
@@ -109,6 +111,18 @@ func timeline(d Doc, ms []InstModel, spans []noteSpan) (starts []int64, totals m
 		lens := []int64{m.LenLo}
 		if m.LenHi != m.LenLo {
 			lens = append(lens, m.LenHi)
+		}
+		if m.Notes != nil && m.LenHi == 0 {
+			// its note-ons fall at the instance start and its note-offs at its end, which is the same tick
+			found := false
+			for s := range cur {
+				if zeroAt[s] > 0 {
+					found = true
+				}
+			}
+			if !found {
+				return nil, nil, vio("zero-length-chord-missing", "instance %d (chord, values %v, 0 ticks long) starts at tick %v but no note is struck and released there", i, d.Insts[i].Values, keys64(cur))
+			}
 		}
 		if m.Notes == nil || m.LenHi == 0 {
 			next := map[int64]bool{}
